@@ -235,20 +235,63 @@ class DocGen:
             items[rng.randrange(len(items))].append(self.word(rng.choice([30, 45, 60]), plain=True))
         return ('l', rng.choice(['', '', 'nowrap', 'wrapalign']), items)
 
+    def layout(self, nrows, ncols, header, spans):
+        """cells of a table in source order: rows of dicts(col, cs = colspan, rs = rowspan, h = header cell,
+        t = transparent cell, w = words, filled in by the caller). A row lists only the cells that begin in it;
+        with spans every row still has a cell of its own, every column a cell of colspan 1 (it shows where the
+        column is), no span leaves the grid. Transparent cells: never in the first column, never beside another
+        one (skool2asm draws no border between / left of / right of the table for them)."""
+        rng = self.rng
+        for attempt in range(30):
+            occ = [[None] * ncols for _ in range(nrows)]
+            rows = []
+            for r in range(nrows):
+                row = []
+                c = 0
+                while c < ncols:
+                    if occ[r][c] is not None:
+                        c += 1
+                        continue
+                    free = 1
+                    while c + free < ncols and occ[r][c + free] is None:
+                        free += 1
+                    cs = min(free, rng.choice([1, 1, 1, 2, 2, 3])) if spans else 1
+                    rs = min(nrows - r, rng.choice([1, 1, 1, 2, 2, 3])) if spans else 1
+                    cell = dict(r=r, col=c, cs=cs, rs=rs, h=bool(header and r == 0) or (spans and rng.random() < 0.06), t=False, w=None)
+                    for i in range(rs):
+                        for j in range(cs):
+                            occ[r + i][c + j] = cell
+                    row.append(cell)
+                    c += cs
+                rows.append(row)
+            cells = [cell for row in rows for cell in row]
+            if not spans:
+                return rows
+            if (all(rows) and all(any(x['cs'] == 1 and x['col'] == c for x in cells) for c in range(ncols))
+                    and any(x['cs'] > 1 or x['rs'] > 1 for x in cells)):
+                for r, row in enumerate(rows):
+                    for x in row:
+                        beside = [occ[r + i][k] for i in range(x['rs']) for k in (x['col'] - 1, x['col'] + x['cs']) if 0 <= k < ncols]
+                        if x['col'] > 0 and rng.random() < 0.12 and not any(y['t'] for y in beside):
+                            x['t'] = True
+                return rows
+        return self.layout(nrows, ncols, header, False)
+
     def table_chunk(self):
         rng = self.rng
         ncols = rng.randint(1, 3)
         wrapcol = rng.choice([None] + list(range(ncols)))
         header = rng.random() < 0.5
-        rows = []
-        for r in range(rng.randint(1, 3) + int(header)):
-            row = []
-            for c in range(ncols):
-                if c == wrapcol and not (header and r == 0):
-                    row.append(self.words(self.rand_lens(1, 22), plain=True))
-                else:
-                    row.append(self.words(self.rand_lens(1, 2), plain=True))
-            rows.append(row)
+        spans = rng.random() < 0.4
+        rows = self.layout(rng.randint(2 if spans else 1, 3) + int(header), ncols, header, spans)
+        cells = [x for row in rows for x in row]
+        for x in cells:
+            if x['cs'] == 1:
+                x['w'] = self.words(self.rand_lens(1, 22 if x['col'] == wrapcol and not (header and x['r'] == 0) else 2), plain=True)
+        natural = [max(len(' '.join(x['w'])) for x in cells if x['cs'] == 1 and x['col'] == c) for c in range(ncols)]
+        for x in cells:
+            if x['cs'] > 1:       # fits into the columns it spans: they are as wide as their own cells need
+                x['w'] = self.cell(rng.randint(1, sum(natural[x['col']:x['col'] + x['cs']]) + 3 * (x['cs'] - 1)))
         return ('b', rng.choice(['', '', 'nowrap', 'wrapalign']), wrapcol, header, rows)
 
     def block_para(self):
@@ -296,11 +339,19 @@ class DocGen:
             cuts = sorted(rng.sample(range(1, S), ncols - 1)) if ncols > 1 else []
             widths = [b - a for a, b in zip([0] + cuts, cuts + [S])]
         header = rng.random() < 0.5
-        nrows = rng.randint(1, 3) + int(header)
-        full = [rng.randrange(nrows) for _ in range(ncols)]       # the row that makes the column as wide as planned
-        rows = []
-        for r in range(nrows):
-            rows.append([self.cell(widths[c] if full[c] == r else rng.randint(1, widths[c])) for c in range(ncols)])
+        spans = rng.random() < 0.5
+        rows = self.layout(rng.randint(2 if spans else 1, 3) + int(header), ncols, header, spans)
+        cells = [x for row in rows for x in row]
+        for c in range(ncols):
+            # one cell of colspan 1 makes the column as wide as planned, the others are not wider; a cell that spans
+            # columns fits into them
+            own = [x for x in cells if x['cs'] == 1 and x['col'] == c]
+            full = rng.choice(own)
+            for x in own:
+                x['w'] = self.cell(widths[c] if x is full else rng.randint(1, widths[c]))
+        for x in cells:
+            if x['cs'] > 1:
+                x['w'] = self.cell(rng.randint(1, sum(widths[x['col']:x['col'] + x['cs']]) + 3 * (x['cs'] - 1)))
         return ('b', rng.choice(['', '', 'nowrap', 'wrapalign']), wrapcol, header, rows)
 
     def list_design(self, avail, delta):
@@ -634,6 +685,23 @@ def table_marker(chunk):
     return '#TABLE(%s)%s' % (','.join(classes), '<%s>' % flag if flag else '')
 
 
+def cell_indicators(cell):
+    """'=h', '=c2', '=r2,c2', '=t,h' ...: the indicators of a table cell, separated by commas, in an order that
+    depends on the cell's words only (every order is allowed)"""
+    ind = []
+    if cell['h']:
+        ind.append('h')
+    if cell['cs'] > 1:
+        ind.append('c%d' % cell['cs'])
+    if cell['rs'] > 1:
+        ind.append('r%d' % cell['rs'])
+    if cell['t']:
+        ind.append('t')
+    k = len(' '.join(cell['w'])) % max(1, len(ind))
+    ind = ind[k:] + ind[:k]
+    return '=' + ','.join(ind) if ind else ''
+
+
 def skool_tokens(para):
     """tokens of a paragraph in skool / control file syntax, with the chunk structure:
     list of (tokens, kind) where kind in 'text','marker','row','end'"""
@@ -654,9 +722,10 @@ def skool_tokens(para):
                 for c, cell in enumerate(row):
                     if c:
                         toks.append('|')
-                    if header and r == 0:
-                        toks.append('=h')
-                    toks.extend(cell)
+                    ind = cell_indicators(cell)
+                    if ind:
+                        toks.append(ind)
+                    toks.extend(cell['w'])
                 toks.append('}')
                 out.append((toks, 'row:' + flag))
             out.append((['TABLE#'], 'end'))
@@ -868,21 +937,48 @@ TABLE_TOKEN = '\x00TABLE'       # placeholder "word" standing for a whole render
 
 
 def table_cols(chunk):
-    rows = chunk[4]
-    ncols = len(rows[0])
-    return [[w for row in rows for w in row[c]] for c in range(ncols)]
+    """The words of the cells of a table as they are compared: one group per horizontal extent (first column,
+    colspan) that occurs, the groups ordered by (first column, colspan), within a group the cells top to bottom
+    (source order). Without spans: the words of each column top to bottom."""
+    groups = {}
+    for row in chunk[4]:
+        for cell in row:
+            groups.setdefault((cell['col'], cell['cs']), []).extend(cell['w'])
+    return [groups[k] for k in sorted(groups)]
+
+
+def table_features(chunk):
+    cells = [x for row in chunk[4] for x in row]
+    f = set()
+    for x in cells:
+        if x['cs'] > 1 and x['rs'] > 1:
+            f.add('span-both')
+        elif x['cs'] > 1:
+            f.add('span-col')
+        elif x['rs'] > 1:
+            f.add('span-row')
+        if x['t']:
+            f.add('transparent')
+    if any(x['h'] for row in chunk[4][1:] for x in row):
+        f.add('header-below-first-row')
+    return sorted(f)
 
 
 def table_minw(chunk, wcmin=10):
     """narrowest rendering of the table in ASM mode: a column marked :w may shrink to wrap-column-width-min
-    (or its longest word, or its natural width if that is less)"""
+    (or its longest word, or its natural width if that is less). Cells that span columns are generated so that
+    they fit into the unshrunk columns; if one lies over the :w column the narrowest width is not known (0)."""
     _, flag, wrapcol, header, rows = chunk
-    ncols = len(rows[0])
+    cells = [x for row in rows for x in row]
+    ncols = max(x['col'] + x['cs'] for x in cells)
+    if wrapcol is not None and any(x['cs'] > 1 and x['col'] <= wrapcol < x['col'] + x['cs'] for x in cells):
+        return 0
     widths = []
     for c in range(ncols):
-        natural = max(len(' '.join(row[c])) for row in rows)
+        own = [x['w'] for x in cells if x['cs'] == 1 and x['col'] == c]
+        natural = max(len(' '.join(w)) for w in own)
         if c == wrapcol:
-            longest = max(len(w) for row in rows for w in row[c])
+            longest = max(len(t) for w in own for t in w)
             widths.append(max(longest, min(natural, wcmin)))
         else:
             widths.append(natural)
@@ -914,7 +1010,8 @@ def rendered(it, para, tool, words, st, tabs, head=None):
             if tool == 'asm' and not (first and head is not None):
                 st.append([len(words) + 1, 0, 0])
             words.append(TABLE_TOKEN)
-            tabs.append(dict(cols=[it.codes(c, True) for c in table_cols(ch)], minw=table_minw(ch) if tool == 'asm' else 0))
+            tabs.append(dict(cols=[it.codes(c, True) for c in table_cols(ch)], minw=table_minw(ch) if tool == 'asm' else 0,
+                             features=table_features(ch)))
         first = False
 
 
@@ -1054,19 +1151,40 @@ def parse_warnings(err):
     return long_lines, tables, other
 
 
-BORDER = re.compile(r'^\+[-+]*\+$')       # a horizontal border of a table rendered by skool2asm
+BORDER = re.compile(r'^\+[-+]*\+$')       # (a piece of) a horizontal border of a table rendered by skool2asm
+TEXT = re.compile(r'[^- ]')
 
 
-def add_cells(it, tab, text):
-    """the words of one rendered table row '| a | b |' go to the columns of the table"""
-    cells = [c.split() for c in text.strip('|').split('|')]
-    if tab['cols'] is None:
-        tab['cols'] = [[] for _ in cells]
-    if len(cells) != len(tab['cols']):
-        tab['cols'].append([UNKNOWN])
-    else:
-        for c, ws in zip(tab['cols'], cells):
-            c.extend(it.codes(ws))
+def table_groups(it, tab):
+    """The cells of a rendered table. tab['lines'] = its lines from the column of its left edge on. '|' and '+'
+    delimit the cells; what stands between two of them and is not a piece of border is one line of a cell whose
+    horizontal extent is (position of the left delimiter, position of the right one - the right edge of the table
+    if a transparent cell leaves it open). Lines of one extent belong to the cells of that extent top to bottom
+    (rows are not separated by borders, cells that span rows go on over the lines of those rows, borders that are
+    crossed by such a cell carry a line of it): one group of words per extent, ordered by extent - the order and
+    grouping of table_cols()."""
+    groups = {}
+    edge = max(len(l) for l in tab['lines']) - 1
+    for l in tab['lines']:
+        pos = [i for i, ch in enumerate(l) if ch in '|+']
+        if not pos or l[:pos[0]].strip():
+            groups.setdefault((-1, -1), []).append(UNKNOWN)       # text left of the table's left edge
+            continue
+        for x, y in zip(pos, pos[1:] + [None]):
+            body = l[x + 1:y]
+            if TEXT.search(body):
+                groups.setdefault((x, edge if y is None else y), []).extend(it.codes(body.split()))
+    return [groups[k] for k in sorted(groups)]
+
+
+def table_line(it, tab, line, lead):
+    """one more line of the table: from the column where the table began; anything but blanks between the comment
+    marker (column lead-1) and that column is kept (on the first line the words in front of the table stand there)"""
+    pre, body = line[lead:tab['pos']], line[tab['pos']:]
+    if tab['lines'] and pre.strip():
+        body = pre.strip() + ' ' + body
+    tab['lines'].append(body)
+    tab['rec']['cols'] = table_groups(it, tab)
 
 
 def proj_asm(it, out, err, doc):
@@ -1094,29 +1212,25 @@ def proj_asm(it, out, err, doc):
                     tab = None
                     recs.append(line_rec('s', n=len(line), wl=len(line)))
                     continue
-                if text[0] in '+|':
-                    if tab is None:
-                        tab = dict(rec=line_rec('c', w=[it.code(TABLE_TOKEN)], tab=1), cols=None, pre=len(line) - len(line[1:].lstrip()))
-                        recs.append(tab['rec'])
+                toks = text.split()
+                bi = [i for i, t in enumerate(toks) if BORDER.match(t)]
+                if bi and (text[0] not in '+|' or (tab is None and bi[0] == 0)):
+                    # the top border of a table, possibly behind other words (a register name): the table's line, the
+                    # words in front of it are its fixed part
+                    pos = len(line) - len(line.lstrip(';').lstrip()) if bi[0] == 0 else line.index(' ' + toks[bi[0]]) + 1
+                    tab = dict(rec=line_rec('c', w=it.codes(toks[:bi[0]]) + [it.code(TABLE_TOKEN)], tab=1, fl=len(toks[0])),
+                               pos=pos, lines=[])
+                    recs.append(tab['rec'])
+                if tab is not None and text[0] in '+|' or tab is not None and not tab['lines']:
                     r = tab['rec']
+                    table_line(it, tab, line, 1)
                     r['n'] = r['wl'] = max(r['n'], len(line))
-                    r['cl'] = max(r['cl'], len(text))
-                    r['fl'] = r['cl']
-                    if text[0] == '|':
-                        add_cells(it, tab, text)
-                        r['cols'] = tab['cols']
+                    r['cl'] = max(r['cl'], len(line) - tab['pos'])
+                    if r['w'][0] == it.code(TABLE_TOKEN):
+                        r['fl'] = r['cl']
                     r['warn'] = int((addr0, r['cl']) in table_warn)
                     continue
                 tab = None
-                toks = text.split()
-                if len(toks) > 1 and BORDER.match(toks[-1]):
-                    # the top border of a table behind other words (a register name): the table's line, the words
-                    # in front of it are its fixed part
-                    tab = dict(rec=line_rec('c', w=it.codes(toks[:-1]) + [it.code(TABLE_TOKEN)], tab=1, n=len(line),
-                                            wl=len(line), cl=len(toks[-1]), fl=len(toks[0]),
-                                            warn=int((addr0, len(toks[-1])) in table_warn)), cols=None)
-                    recs.append(tab['rec'])
-                    continue
                 recs.append(line_rec('c', w=it.codes(toks), n=len(line), wl=len(line), cl=len(text), fl=len(toks[0]),
                                      warn=int((len(line), line) in long_lines), lf=int(line in bare_lf)))
             else:
@@ -1129,21 +1243,19 @@ def proj_asm(it, out, err, doc):
                                op=opcode(it, op) if op else 0, warn=int((len(line), line) in long_lines),
                                lf=int(line in bare_lf))
                 recs.append(rec)
-                if text[:1] in ('+', '|') and (itab is not None or BORDER.match(text)):
+                if text[:1] in ('+', '|') and (itab is not None or BORDER.match(toks[0])):
                     # a table in the comment field: every row stays a row of its own (tab=1 the first, which stands
                     # for the table and carries its cells; tab=2 the others), measured and warned about per row.
-                    # A border directly below a border is the top of the next table (the comment of the next
-                    # instruction begins with a table).
-                    border = text[0] == '+'
-                    if itab is None or (border and itab['border']):
-                        itab = dict(rec=rec, cols=None)
+                    # A complete border directly below a complete border is the top of the next table (the comment of
+                    # the next instruction begins with a table).
+                    border = not TEXT.search(text.replace('+', '').replace('|', ''))
+                    if itab is None or (border and itab['border'] and '|' not in text):
+                        itab = dict(rec=rec, pos=len(left) + 1 + len(right) - len(right.lstrip()), lines=[])
                         rec.update(w=[it.code(TABLE_TOKEN)], tab=1)
                     else:
                         rec.update(w=[], tab=2)
-                    itab['border'] = border
-                    if not border:
-                        add_cells(it, itab, text)
-                        itab['rec']['cols'] = itab['cols']
+                    itab['border'] = border and '|' not in text
+                    table_line(it, itab, line, len(left) + 1)
                 else:
                     itab = None
                 tab = None
@@ -1258,14 +1370,26 @@ def html_para(it, node):
             if isinstance(k, str):
                 words.extend(it.codes(k.split()))
             elif k.tag == 'table':
+                # a cell begins in the first column of its row that no cell of this or an earlier row covers (HTML table
+                # model); the words are grouped by (first column, colspan) as in table_cols()
                 rows = [[c for c in tr.kids if isinstance(c, Node) and c.tag in ('td', 'th')] for tr in k.find('tr')]
-                ncols = max(len(r) for r in rows) if rows else 0
-                cols = [[] for _ in range(ncols)]
-                for r in rows:
-                    for c, cell in enumerate(r):
-                        cols[c].extend(it.codes(cell.text().split()))
+                covered = set()
+                groups = {}
+                for r, row in enumerate(rows):
+                    c = 0
+                    for cell in row:
+                        while (r, c) in covered:
+                            c += 1
+                        try:
+                            cs, rs = int(cell.attrs.get('colspan') or 1), int(cell.attrs.get('rowspan') or 1)
+                        except ValueError:
+                            cs, rs = 1, 1
+                            groups.setdefault((-1, -1), []).append(UNKNOWN)
+                        covered.update((r + i, c + j) for i in range(rs) for j in range(cs))
+                        groups.setdefault((c, cs), []).extend(it.codes(cell.text().split()))
+                        c += cs
                 words.append(it.code(TABLE_TOKEN))
-                tabs.append(cols)
+                tabs.append([groups[g] for g in sorted(groups)])
             else:
                 walk(k)
     walk(node)
